@@ -6,7 +6,7 @@ from props import sqio_common as S
 hx = S.hx
 
 # theorems added in round 6 (kept here: sqio_common.py is shared with C02 / C07)
-R6_THEOREMS = ["tracker_iff", "tracker_sound", "tracker_rejects_former_exceptions", "position_then_read_eq_record", "rewind_then_read_all_eq_parseFasta",
+R6_THEOREMS = ["tracker_iff", "tracker_unset_iff", "tracker_sound", "tracker_rejects_former_exceptions", "position_then_read_eq_record", "rewind_then_read_all_eq_parseFasta",
                "tracker_ignores_where_seebuf_stops", "position_yields_ready_handle", "position_then_read_all_eq_spec", "position_at_record_then_read_all_eq_scan_tail"]
 
 
@@ -108,17 +108,17 @@ class C04(Prop):
                   "Tie: the executable line-by-line model of the ascii reader (FASTA, EMBL/UniProt, GenBank/DDBJ, daemon, hmmpgmd, autodetection; block size B a parameter) is compared exactly with the ASan/UBSan build over Read / ReadInfo / ReadSequence / windows on both strands / ReadBlock (short and long-target) / FASTA round trip x text and digital mode x B swept over 1..4097 (fixed list, uniform, and the sizes that put a block boundary inside/at the end of the header line, at every '>', between CR and LF, at the end of the file), "
                   "and agreement monitors (records equal across read paths, block sizes and modes; offsets are the true byte positions, also on CRLF files; windows reassemble the sequence; reverse strand = reverse complement; write+re-read reproduces the records) give the concrete failing input.")
     level_note = ("Not theorems (exact differential run + monitors only): a declarative parser for the line-based formats (EMBL/UniProt, GenBank/DDBJ: block-size independence of Read/ReadInfo/ReadSequence/forward ReadWindow/whole-sequence ReadBlock is a theorem; Read = a declarative spec and cross-call agreement there are not), daemon/hmmpgmd, the composition 'seebuf over the bytes of a file = the line events of tracker_iff' (tracker_iff is a theorem about the tracker fed with each record's completed lines; that the real seebuf, called block by block and window by window, produces these events is tied by the trackscan monitor on the implementation's bpl/rpl and by the exact comparison of the `geom` op), long-target ReadBlock, ReadWindow on a record whose data holds an illegal byte (the window theorems assume the whole-record read succeeds). "
-                  "The same files are also read through a real gzip -dc pipe, through standard input re-opened on the file, and through standard input as a real pipe (cat file |) in a child process, and compared with the model including the four offsets; the alignment-as-sequences branch is not modelled. Offsets on a pipe (gzip -dc, and a real pipe on standard input fed by cat) are compared exactly and checked as byte positions since the repair ec6a8a0 (loadmem counts bytes where ftello() fails).")
+                  "The same files are also read through a real gzip -dc pipe, through standard input re-opened on the file, and through standard input as a real pipe (cat file |) in a child process, and compared with the model including the four offsets; alignment files read as sequences are outside C04's theorems (the C02 builder models that branch in Sqio/MsaSeq*.lean). The byte-level bridge 'tracker over the bytes of a record = tracker over its line counts' and 'geometry => FullLines hypotheses of the window / FetchSubseq theorems' are C07's TrackBytes.lean / GeomBridge.lean. Offsets on a pipe (gzip -dc, and a real pipe on standard input fed by cat) are compared exactly and checked as byte positions since the repair ec6a8a0 (loadmem counts bytes where ftello() fails).")
     assumptions = ["fread returns min(B, remaining) bytes; allocation never fails (eslEMEM paths not modelled)",
                    "the model mirrors esl_sqio_ascii.c by hand; fidelity is checked by the differential run only",
-                   "alignment files read as sequences are outside the model (monitor only); a gzip pipe / standard input deliver the bytes of the file (popen/freopen plumbing trusted)",
+                   "alignment files read as sequences are outside C04's theorems (modelled by C02: Sqio/MsaSeq*.lean); a gzip pipe / standard input deliver the bytes of the file (popen / freopen / pipe+cat plumbing trusted)",
                    "after a failed call the handle is not used again (the API leaves its state unspecified)",
                    "theorems about one call start from a ready handle (Ready / HReady: block mode, FASTA maps, cursor on a byte or at end of file) - proved to hold after esl_sqfile_Open and after every successful call"]
     technique = ("Lean 4 proofs about an executable line-by-line model of esl_sqio_ascii.c's FASTA reader core and its specification, "
                  "+ exact differential correspondence of the model with the ASan/UBSan build over generated files x read calls x window geometries x read-block sizes, "
                  "+ property monitors on the implementation's output")
     trusted_base = ["hand model of esl_sqio_ascii.c (loadmem loadbuf nextchar seebuf addbuf skipbuf read_nres skip_whitespace header/skip/end_{fasta,embl,genbank} end_daemon fileheader_hmmpgmd GuessFileFormat Read ReadInfo ReadSequence ReadWindow ReadBlock Position WriteFasta) tied by exact differential run (h_sqio.c)",
-                    "gzip and fork/freopen (standard input is emulated by re-opening stdin on the file in a child process)",
+                    "gzip, cat and fork/freopen/pipe (standard input is re-opened on the file, or made a real pipe fed by cat, in a child process)",
                     "alphabet tables regenerated from esl_alphabet.c on every run (kind G)",
                     "Lean compiler/runtime for the executable driver; gcc; ASan/UBSan"]
     rule = ("cases = generated FASTA files (0..6 records quick / 0..40 thorough, constant or ragged widths, blanks, CRLF, with/without final newline) "
